@@ -181,6 +181,102 @@ def judge(ck, c, ctx, s0, shape, isrec, r, api, isread, relax):
         prev = cur
 
 
+# ---------------------------------------------------------------- several requests completed together
+PSHAPES = {'p1': [('a', 6)], 'p2': [('p', 3), ('a', 4)], 'prec': [('t', None), ('q', 3)]}
+PNREC = 3
+
+
+def boxes(lens):
+    per = [[(s, c) for s in range(L) for c in range(1, L - s + 1)] for L in lens]
+    for combo in itertools.product(*per):
+        yield [x[0] for x in combo], [x[1] for x in combo]
+
+
+def build_pair_cases(shape_name, fmt, api, pairs, per_case=80):
+    """api: iput (two iput_vara + one wait_all) | bput | varn (one put_varn with two segments) | ivarn (iput_varn + wait)"""
+    dims = PSHAPES[shape_name]
+    cases = []
+    for b0 in range(0, len(pairs), per_case):
+        c = Case('PAIR-%s-f%d-%s-%d' % (shape_name, fmt, api, b0), 1)
+        c.op('*', 'create', f=0, path='a.nc', fmt=fmt, hints='nc_header_align_size=4;nc_var_align_size=4;nc_record_align_size=4')
+        alld = [('z', 3)] + dims
+        for n, l in alld:
+            if l is None: c.op('*', 'def_dim', name=n, unlim=1)
+            else: c.op('*', 'def_dim', name=n, len=l)
+        isrec = dims[0][1] is None
+        c.op('*', 'def_var', name='before', xtype='short', dims=[0])
+        c.op('*', 'def_var', name='target', xtype='int', dims=list(range(1, len(alld))))
+        c.op('*', 'def_var', name='after', xtype='int', dims=[0])
+        if isrec: c.op('*', 'def_var', name='rafter', xtype='short', dims=[1])
+        c.op('*', 'enddef', f=0)
+        shape = [PNREC if l is None else l for n, l in dims]
+        c.op('*', 'put', f=0, form='var', v=0, coll=1, mem='short', tag=40, scale=1)
+        c.op('*', 'put', f=0, form='vara', v=1, s=[0] * len(shape), c=shape, coll=1, mem='int', tag=41, scale=1)
+        c.op('*', 'put', f=0, form='var', v=2, coll=1, mem='int', tag=42, scale=1)
+        if isrec: c.op('*', 'put', f=0, form='vara', v=3, s=[0], c=[PNREC], coll=1, mem='short', tag=43, scale=1)
+        c.op('*', 'buffer_attach', f=0, size=8192)
+        s0 = c.op(0, 'snap', path='a.nc')
+        ctx = []
+        for k, ((sa, ca), (sb, cb)) in enumerate(pairs[b0:b0 + per_case]):
+            ta, tb = (2 * k) % 80 + 1, (2 * k + 1) % 80 + 1
+            if api in ('iput', 'bput'):
+                nb = 'i' if api == 'iput' else 'b'
+                l1 = c.op('*', 'put', f=0, form='vara', v=1, mem='int', s=sa, c=ca, tag=ta, scale=100, nb=nb, req=0)
+                l2 = c.op('*', 'put', f=0, form='vara', v=1, mem='int', s=sb, c=cb, tag=tb, scale=100, nb=nb, req=1)
+                lw = c.op('*', 'wait', f=0, ids=['q0', 'q1'], all=1)
+                lines = [l1, l2]
+            elif api == 'varn':
+                l1 = c.op('*', 'put', f=0, form='varn', v=1, coll=1, mem='int', n=2, nd=len(sa), s0=sa, c0=ca, s1=sb, c1=cb, tag=ta, scale=100)
+                lw = None; lines = [l1]
+            else:
+                l1 = c.op('*', 'put', f=0, form='varn', v=1, mem='int', n=2, nd=len(sa), s0=sa, c0=ca, s1=sb, c1=cb, tag=ta, scale=100, nb='i', req=0)
+                lw = c.op('*', 'wait', f=0, ids=['q0'], all=1); lines = [l1]
+            ls = c.op(0, 'snap', path='a.nc')
+            ctx.append(((sa, ca), (sb, cb), lines, lw, ls, ta, tb))
+        c.op('*', 'close', f=0)
+        cases.append((c, ctx, s0, shape, isrec))
+    return cases
+
+
+def judge_pairs(ck, c, ctx, s0, shape, isrec, r, api):
+    text = c.text()
+    if r.status != 'ok':
+        ck.violation((r.status, 'pair ' + api, first_frame(r.detail)), text, c.name + ': ' + r.detail[:600]); return
+    prev = bytes.fromhex(r.r(0, s0).get('hex', ''))
+    f0 = cdf.decode(prev, with_data=False, strict=False)
+    wnum = 8 if f0.version == 5 else 4
+    mshape = [None] + shape[1:] if isrec else shape
+    for ((sa, ca), (sb, cb), lines, lw, ls, ta, tb) in ctx:
+        desc = '%s of [%s+%s] and [%s+%s] on shape %s' % (api, sa, ca, sb, cb, shape)
+        rcs = [r.r(0, l).rc for l in lines]
+        if lw is not None:
+            w = r.r(0, lw); rcs.append(w.rc); rcs += [x for x in (w.ints('st') or [])]
+        ck.outcomes.add(('pair', api, tuple(rcs)))
+        if any(rcs):
+            ck.violation(('rc', 'pair ' + api, 'valid requests'), text, '%s: %s returned %s' % (c.name, desc, rcs)); return
+        ia = D.region_indices(mshape, sa, ca, None); ib = D.region_indices(mshape, sb, cb, None)
+        if api in ('iput', 'bput'):
+            va = {i: D.gen(ta, k, 100) for k, i in enumerate(ia)}; vb = {i: D.gen(tb, k, 100) for k, i in enumerate(ib)}
+        else:
+            va = {i: D.gen(ta, k, 100) for k, i in enumerate(ia)}; vb = {i: D.gen(ta, len(ia) + k, 100) for k, i in enumerate(ib)}
+        cur = bytes.fromhex(r.r(0, ls).get('hex', ''))
+        fcur = cdf.decode(cur, with_data=True, strict=False)
+        allowed = set(range(4, 4 + wnum))
+        for i in set(ia) | set(ib):
+            off = cdf.var_element_offset(fcur, 1, i); allowed |= set(range(off, off + 4))
+        n = max(len(cur), len(prev))
+        a = prev + b'\0' * (n - len(prev)); b_ = cur + b'\0' * (n - len(cur))
+        bad = [i for i in range(n) if a[i] != b_[i] and i not in allowed]
+        if bad:
+            ck.violation(('write_outside_target', 'pair ' + api, 'overlap' if set(ia) & set(ib) else 'disjoint'), text, '%s: %s changed bytes %s outside the union of the two targets' % (c.name, desc, bad[:12])); return
+        got = fcur.data.get(1) or []
+        for i in sorted(set(ia) | set(ib)):
+            ok = {va[i]} if i not in vb else ({vb[i]} if i not in va else {va[i], vb[i]})
+            if i >= len(got) or got[i] not in ok:
+                ck.violation(('value', 'pair ' + api, 'overlap' if set(ia) & set(ib) else 'disjoint'), text, '%s: %s element %d holds %r, expected one of %s' % (c.name, desc, i, got[i] if i < len(got) else None, sorted(ok))); return
+        prev = cur
+
+
 def main(tier=None):
     ck = Check('C15', 'exploration', tier)
     b = build.build('plain')
@@ -213,11 +309,29 @@ def main(tier=None):
     for ((c, ctx, s0, shape, isrec), api, isread, relax), r in zip(allc, results):
         nt += len(ctx)
         judge(ck, c, ctx, s0, shape, isrec, r, api, isread, relax)
+    # pairs of valid requests completed by one call: writes stay inside the union of the two targets
+    pc = []
+    for fmt in fmts:
+        for sh in PSHAPES:
+            lens = [PNREC if l is None else l for n, l in PSHAPES[sh]]
+            bx = list(boxes(lens))
+            pairs = [(x, y) for x in bx for y in bx]
+            if not thorough and sh != 'p1': pairs = pairs[::5]
+            for api in (('iput', 'bput', 'varn', 'ivarn') if (thorough or sh == 'p1') else ('iput', 'varn')):
+                for x in build_pair_cases(sh, fmt, api, pairs): pc.append((x, api))
+    pres = runner.run_cases(b['vx'], [x[0][0] for x in pc], batch=8, timeout=600)
+    npairs = 0
+    for ((c, ctx, s0, shape, isrec), api), r in zip(pc, pres):
+        npairs += len(ctx)
+        judge_pairs(ck, c, ctx, s0, shape, isrec, r, api)
+    nt += npairs
+    ck.cov['request_pairs'] = npairs
     ck.cov['evaluations'] = nt
     ck.cov['distinct_nontrivial'] = nt
     ck.cov['rule'] = ('every (start,count,stride) in {-1..len+1} x {-1..len+1} x {-1,0,1,2,len,len+1} per dimension for shapes (3), (2,3), (U,2) and a reduced grid for (2,2,2) through put/get_vars, and derived tuple sets through '
                       'var1, vara, varm, varn, iput/iget/bput+wait; strict and relaxed coordinate bound; the file is snapshot after every call: rejected, zero-length and read requests may not change a byte, accepted writes '
-                      'may change only the bytes of the addressed elements (+ the numrecs field) which must then hold the new values')
+                      'may change only the bytes of the addressed elements (+ the numrecs field) which must then hold the new values; every ordered pair of in-range boxes of a (6), (3,4) and (U,3) variable posted as two iput/bput requests completed by one wait_all '
+                      'or as the two segments of one put_varn / iput_varn (disjoint, adjacent, partially overlapping, nested): only bytes of the union may change, elements of one box hold its value, elements of both hold either')
     ck.sample(allc[0][0][0].text()[:1500])
     ck.assumptions += ['where no document orders two applicable codes (NC_ENEGATIVECNT vs NC_EEDGE / NC_ESTRIDE) either is accepted', 'larger shapes and derived buffer types for out-of-range requests are outside the bound (the property\'s random clause is not done)']
     runner.cleanup()
